@@ -143,6 +143,9 @@ func runBatch(obs []*Oblig, timeoutS int, all bool) {
 			if j.obs[0].TimeMul > 1 {
 				to *= j.obs[0].TimeMul
 			}
+			if to > 180 {
+				to = 180
+			}
 			best, allr := RunScript(j.obs[0].Name, j.sc, to, all)
 			if best.Result != "unsat" && !j.obs[0].NoSlice && !j.obs[0].Soft && !j.obs[0].Cover {
 				// the cone-of-influence slice may have dropped the facts that make this path infeasible:
@@ -191,6 +194,9 @@ func runBatch(obs []*Oblig, timeoutS int, all bool) {
 				to := timeoutS * 3
 				if o0.TimeMul > 1 {
 					to *= o0.TimeMul
+				}
+				if to > 240 {
+					to = 240 // a query that needs more than this is reported as undischarged
 				}
 				o0.NoSlice = true
 				sc2 := prepare(o0)
